@@ -373,6 +373,8 @@ class Renderer:
                 if f in ('format_type', 'format_simple_type', 'format_generic_type', 'format_special_type', 'generic_constraints', 'type_override') or not v.get('args'):
                     return ['⟨' + f + '⟩']
                 return ['⟨' + f + ':' + s_.strip('⟨⟩') + '⟩' if s_.count('⟨') <= 1 else '⟨' + f + ':' + s_ + '⟩' for s_ in self.render(v['args'][0], depth + 1)]
+            if f in ('String::new', 'String::default', 'String::with_capacity', 'std::string::String::new') and v.get('recv') is None:
+                return ['']
             if f in ('Ok', 'Some') and v.get('recv') is None and len(v.get('args', [])) == 1:
                 return self.render(v['args'][0], depth + 1)
             pm = getattr(self.T, 'pure_methods', {}).get(f)
